@@ -139,10 +139,14 @@ func addLeaf(t Tree, r *Route, s *Segment, h Handler) (Leaf, error) {
 				return nil, errors.Wrap(err, "add optional leaf to grandparent")
 			}
 		} else {
-			_, err = addLeaf(parent, r, parent.getSegment(), h)
+			// The parent is the root which is not derived from any segment, i.e. the
+			// optional segment is the only segment of the route (e.g. "/?b"), and the
+			// route without it is "/".
+			_, err = addLeaf(parent, r, &Segment{Pos: s.Pos, Slash: "/"}, h)
 			if err != nil {
 				return nil, errors.Wrap(err, "add optional leaf to parent")
 			}
+			leaves = t.getLeaves() // The parent is this very tree.
 		}
 	}
 
